@@ -978,6 +978,394 @@ Proof.
 Qed.
 End AnyList.
 
+(* ==== bitfields ==== *)
+Local Open Scope nat_scope.
+(* ---- bits ---- *)
+Lemma bits_byte_set (g : list bool) (j : nat) (v : bool) : j < length g -> length g <= 8 ->
+  bits_byte (upd j v g) = set_bit_byte (bits_byte g) (N.of_nat j) v.
+Proof.
+  intros Hj Hl.
+  destruct g as [|b0 g]; [cbn in Hj; lia|].
+  destruct g as [|b1 g]; [destruct j as [|j]; [destruct b0, v; reflexivity|cbn in Hj; lia]|].
+  destruct g as [|b2 g]; [do 2 (destruct j as [|j]; [destruct b0, b1, v; reflexivity|]); cbn in Hj; lia|].
+  destruct g as [|b3 g]; [do 3 (destruct j as [|j]; [destruct b0, b1, b2, v; reflexivity|]); cbn in Hj; lia|].
+  destruct g as [|b4 g]; [do 4 (destruct j as [|j]; [destruct b0, b1, b2, b3, v; reflexivity|]); cbn in Hj; lia|].
+  destruct g as [|b5 g]; [do 5 (destruct j as [|j]; [destruct b0, b1, b2, b3, b4, v; reflexivity|]); cbn in Hj; lia|].
+  destruct g as [|b6 g]; [do 6 (destruct j as [|j]; [destruct b0, b1, b2, b3, b4, b5, v; reflexivity|]); cbn in Hj; lia|].
+  destruct g as [|b7 g]; [do 7 (destruct j as [|j]; [destruct b0, b1, b2, b3, b4, b5, b6, v; reflexivity|]); cbn in Hj; lia|].
+  destruct g as [|b8 g]; [do 8 (destruct j as [|j]; [destruct b0, b1, b2, b3, b4, b5, b6, b7, v; reflexivity|]); cbn in Hj; lia|].
+  cbn [length] in Hl. lia.
+Qed.
+(* byte level *)
+Lemma bits_to_bytes_upd (bs : list bool) (k : nat) (v : bool) : k < length bs ->
+  bits_to_bytes (upd k v bs) =
+  upd (k / 8) (set_bit_byte (nth (k / 8) (bits_to_bytes bs) x00) (N.of_nat (k mod 8)) v) (bits_to_bytes bs).
+Proof.
+  intros Hk. rewrite !bits_group. unfold group. rewrite upd_len.
+  rewrite (group_fuel_upd 8 ltac:(lia) (length bs) bs k v (le_n _) Hk).
+  destruct (group_fuel_nth 8 ltac:(lia) (length bs) bs k (le_n _) Hk) as (Hj & Hgl & _ & Hci).
+  set (G := group_fuel (length bs) 8 bs) in *. set (g := nth (k / 8) G []) in *.
+  rewrite map_upd. f_equal.
+  assert (nth (k / 8) (map bits_byte G) x00 = bits_byte g) as ->.
+  { rewrite (nth_indep _ x00 (bits_byte [])) by (now rewrite map_length). unfold g. apply (map_nth bits_byte). }
+  now apply bits_byte_set.
+Qed.
+
+Lemma pad32_upd (g : bytes) j x : j < length g -> length g <= 32 -> pad32 (upd j x g) = upd j x (pad32 g).
+Proof.
+  intros Hj Hl. unfold pad32, pad_to. rewrite upd_len. now rewrite upd_app1.
+Qed.
+
+(* chunk level *)
+Lemma chunks_upd (B : bytes) (bi : nat) (nb : byte) : bi < length B ->
+  chunks (upd bi nb B) = upd (bi / 32) (upd (bi mod 32) nb (nth (bi / 32) (chunks B) [])) (chunks B).
+Proof.
+  intros Hb. rewrite !chunks_group. unfold group. rewrite upd_len.
+  rewrite (group_fuel_upd 32 ltac:(lia) (length B) B bi nb (le_n _) Hb).
+  destruct (group_fuel_nth 32 ltac:(lia) (length B) B bi (le_n _) Hb) as (Hj & Hgl & _ & Hci).
+  set (G := group_fuel (length B) 32 B) in *. set (g := nth (bi / 32) G []) in *.
+  rewrite map_upd. f_equal.
+  match goal with |- context [nth ?c (map ?F ?GG) ?d] =>
+    assert (nth c (map F GG) d = F g) as -> by (rewrite (nth_indep _ d (F [])) by (now rewrite map_length); unfold g; apply (map_nth F)) end.
+  now apply pad32_upd.
+Qed.
+
+Lemma upd_firstn_skipn {A} (x : A) : forall l j, j < length l -> firstn j l ++ [x] ++ skipn (S j) l = upd j x l.
+Proof. induction l as [|c l IH]; intros [|j] Hj; cbn in Hj; try lia; cbn [firstn skipn upd app]; [reflexivity|]. f_equal. apply IH. lia. Qed.
+
+(* _new_chunk_with_bit is a byte update *)
+Lemma chunk_with_bit_upd (chunk : bytes) (i : N) (v : bool) : (N.to_nat ((i mod 256) / 8) < length chunk) ->
+  chunk_with_bit chunk i v =
+  upd (N.to_nat ((i mod 256) / 8)) (set_bit_byte (nth (N.to_nat ((i mod 256) / 8)) chunk x00) (i mod 8) v) chunk.
+Proof.
+  intros Hb. unfold chunk_with_bit. set (bi := N.to_nat ((i mod 256) / 8)) in *.
+  destruct (nth_error chunk bi) as [b|] eqn:Hn; [|apply nth_error_None in Hn; lia].
+  rewrite (nth_error_nth chunk bi x00 Hn). apply upd_firstn_skipn. exact Hb.
+Qed.
+
+Lemma nth_firstn_lt {A} (d : A) : forall n l i, i < n -> nth i (firstn n l) d = nth i l d.
+Proof. induction n as [|n IH]; intros [|x l] [|i] Hi; cbn; try lia; auto. apply IH. lia. Qed.
+Lemma nth_skipn_add {A} (d : A) : forall n l i, nth i (skipn n l) d = nth (n + i) l d.
+Proof. induction n as [|n IH]; intros [|x l] i; cbn; auto. destruct i; reflexivity. Qed.
+
+(* setting bit k of a bitfield = _new_chunk_with_bit on chunk k / 256 *)
+Lemma bit_set_chunks (bs : list bool) (k : nat) (v : bool) : k < length bs ->
+  chunks (bits_to_bytes (upd k v bs)) =
+  upd (k / 256) (chunk_with_bit (nth (k / 256) (chunks (bits_to_bytes bs)) zero32) (N.of_nat (k mod 256)) v) (chunks (bits_to_bytes bs)).
+Proof.
+  intros Hk. set (B := bits_to_bytes bs).
+  pose proof (bits_to_bytes_lenN bs) as HB. fold B in HB. unfold lenN in HB.
+  assert (k / 8 < length B) as Hb by (apply Nat.div_lt_upper_bound; lia).
+  rewrite (bits_to_bytes_upd bs k v Hk). fold B. rewrite (chunks_upd B (k / 8) _ Hb).
+  assert (k / 8 / 32 = k / 256) as -> by (rewrite Nat.div_div by lia; reflexivity).
+  f_equal. unfold bytes in *.
+  assert (k / 256 < length (chunks B)) as Hci by (rewrite chunks_length; apply Nat.div_lt_upper_bound; lia).
+  assert (length (nth (k / 256) (chunks B) zero32) = 32) as Hc32.
+  { pose proof (chunks_all32 B) as Hall. rewrite Forall_forall in Hall. apply Hall. now apply nth_In. }
+  rewrite (nth_indep _ [] zero32 Hci).
+  assert (N.to_nat ((N.of_nat (k mod 256) mod 256) / 8) = (k / 8) mod 32) as Ebi.
+  { rewrite N.mod_small by (pose proof (Nat.mod_upper_bound k 256 ltac:(lia)); lia).
+    rewrite N2Nat.inj_div, Nat2N.id. change (N.to_nat 8) with 8.
+    pose proof (Nat.div_mod k 256 ltac:(lia)). pose proof (Nat.mod_upper_bound k 256 ltac:(lia)).
+    pose proof (Nat.div_mod (k mod 256) 8 ltac:(lia)). pose proof (Nat.mod_upper_bound (k mod 256) 8 ltac:(lia)).
+    apply (Nat.mod_unique (k / 8) 32 (k / 256)); [apply Nat.div_lt_upper_bound; lia|].
+    symmetry. apply (Nat.div_unique k 8 _ ((k mod 256) mod 8)); lia. }
+  match goal with |- _ = chunk_with_bit ?C ?I ?V =>
+    assert (N.to_nat (I mod 256 / 8) < length C) as Hside by (rewrite Ebi; apply Nat.lt_le_trans with 32; [apply Nat.mod_upper_bound; lia|apply Nat.eq_le_incl; symmetry; exact Hc32]);
+    rewrite (chunk_with_bit_upd C I V Hside) end.
+  rewrite Ebi.
+  assert (N.of_nat (k mod 256) mod 8 = N.of_nat (k mod 8))%N as ->.
+  { change 8%N with (N.of_nat 8). rewrite <- Nat2N.inj_mod. f_equal. pose proof (Nat.div_mod k 256 ltac:(lia)). pose proof (Nat.mod_upper_bound k 256 ltac:(lia)).
+    pose proof (Nat.div_mod (k mod 256) 8 ltac:(lia)). pose proof (Nat.mod_upper_bound (k mod 256) 8 ltac:(lia)).
+    apply (Nat.mod_unique k 8 (32 * (k / 256) + (k mod 256) / 8)); lia. }
+  f_equal. f_equal.
+  (* the byte read from the chunk is the byte of B *)
+  transitivity (nth ((k / 8) mod 32) (nth (k / 256) (chunks B) []) x00); [|f_equal; apply nth_indep; exact Hci].
+  pose proof (nth_uniform 32 _ _ (chunks_all32 B) Hci) as Enu. unfold bytes in *. rewrite Enu. clear Enu.
+  destruct (concat_chunks B) as (z & ->).
+  rewrite nth_firstn_lt by (apply Nat.mod_upper_bound; lia).
+  assert (k / 256 = k / 8 / 32) as E256 by (rewrite Nat.div_div by lia; reflexivity).
+  pose proof (Nat.div_mod (k / 8) 32 ltac:(lia)) as Hdm. rewrite <- E256 in Hdm.
+  rewrite nth_skipn_add. replace (k / 256 * 32 + (k / 8) mod 32) with (k / 8) by lia.
+  now rewrite app_nth1 by lia.
+Qed.
+Local Open Scope N_scope.
+
+Lemma bit_write (setp : N -> node -> result node) (getp : N -> result node) (wrap : node -> node)
+    (d : nat) (c0 : node) (bs : list bool) (k : N) (v : bool) :
+  k < lenN bs -> CRep d c0 (map RootN (chunks (bits_to_bytes bs))) ->
+  (forall j x, j < lenN (chunks (bits_to_bytes bs)) ->
+     exists c', setp j x = Ok (wrap c') /\ CRep d c' (upd (N.to_nat j) x (map RootN (chunks (bits_to_bytes bs))))) ->
+  (forall j, j < lenN (chunks (bits_to_bytes bs)) ->
+     getp j = Ok (nth (N.to_nat j) (map RootN (chunks (bits_to_bytes bs))) (RootN zero32))) ->
+  exists c',
+    (do probe <- setp (k / 256) (RootN zero32);
+     do c <- getp (k / 256);
+     setp (k / 256) (RootN (chunk_with_bit (root c) (k mod 256) v))) = Ok (wrap c') /\
+    CRep d c' (map RootN (chunks (bits_to_bytes (upd (N.to_nat k) v bs)))).
+Proof.
+  intros Hk Hc Hset Hget. set (B := bits_to_bytes bs) in *.
+  pose proof (bits_to_bytes_lenN bs) as HB. fold B in HB.
+  assert (k / 256 < lenN (chunks B)) as Hci.
+  { unfold lenN in *. rewrite chunks_length. pose proof (N.div_mod k 256 ltac:(lia)). pose proof (N.mod_lt k 256 ltac:(lia)).
+    assert (N.to_nat (k / 256) < (length B + 31) / 32)%nat; [|lia]. apply Nat.div_le_lower_bound; lia. }
+  pose proof (bit_set_chunks bs (N.to_nat k) v ltac:(unfold lenN in Hk; lia)) as Hch. fold B in Hch.
+  assert (N.to_nat k / 256 = N.to_nat (k / 256))%nat as Ediv by (rewrite N2Nat.inj_div; reflexivity).
+  assert (N.of_nat (N.to_nat k mod 256) = k mod 256) as Emod by (rewrite N2Nat.inj_mod || idtac; change 256%nat with (N.to_nat 256); rewrite <- N2Nat.inj_mod, N2Nat.id; reflexivity).
+  rewrite Ediv, Emod in Hch.
+  destruct (Hset (k / 256) (RootN zero32) Hci) as (pr & Hpr & _). rewrite Hpr. cbn [bind].
+  rewrite (Hget (k / 256) Hci). cbn [bind].
+  rewrite (nth_map_RootN (chunks B)) by (unfold lenN, bytes in *; lia). cbn [Tree.root].
+  destruct (Hset (k / 256) (RootN (chunk_with_bit (nth (N.to_nat (k / 256)) (chunks B) zero32) (k mod 256) v)) Hci) as (c' & Hs' & Hc'). rewrite Hs'.
+  exists c'. split; [reflexivity|]. rewrite Hch, map_upd. exact Hc'.
+Qed.
+
+Theorem bitvector_set k bs n i v : wf (TBitvector k) (VBits bs) = true -> Repr (TBitvector k) (VBits bs) n ->
+  (0 <= i < Z.of_N k)%Z ->
+  exists n', bits_set H src (TBitvector k) n i v = Ok n' /\ Repr (TBitvector k) (VBits (upd (Z.to_nat i) v bs)) n'.
+Proof.
+  intros Hwf Hr Hi. cbn [wf] in Hwf. apply N.eqb_eq in Hwf. cbn [ReprProofs.Repr chunk_data] in Hr.
+  unfold bits_set. cbn [bits_len bind]. assert (((i <? 0)%Z || (Z.of_N k <=? i)%Z) = false) as -> by lia.
+  assert (tree_depth (TBitvector k) = contents_depth (TBitvector k)) as -> by reflexivity.
+  destruct (bit_write (fun j x => setter_i H src false n j (contents_depth (TBitvector k)) x)
+              (fun j => getter_i src n j (contents_depth (TBitvector k))) (fun c => c) _ n bs (Z.to_N i) v ltac:(lia) Hr) as (c' & Hs & Hc').
+  - intros j x Hj. apply crep_setter_i; [exact Hr|unfold lenN in *; rewrite map_length; exact Hj].
+  - intros j Hj. apply (getter_i_crep H src _ _ _ _ _ Hr). unfold lenN in *. rewrite map_length. exact Hj.
+  - rewrite Hs. exists c'. split; [reflexivity|]. cbn [ReprProofs.Repr chunk_data].
+    replace (Z.to_nat i) with (N.to_nat (Z.to_N i)) by lia. exact Hc'.
+Qed.
+
+Theorem bitlist_set l bs n i v : wf_ty (TBitlist l) = true -> wf (TBitlist l) (VBits bs) = true -> Repr (TBitlist l) (VBits bs) n ->
+  (0 <= i < Z.of_N (lenN bs))%Z ->
+  exists n', bits_set H src (TBitlist l) n i v = Ok n' /\ Repr (TBitlist l) (VBits (upd (Z.to_nat i) v bs)) n'.
+Proof.
+  intros Hty Hwf Hr Hi. cbn [wf] in Hwf. apply N.leb_le in Hwf. cbn [wf_ty] in Hty. apply N.ltb_lt in Hty. unfold LIMIT_BOUND in Hty.
+  cbn [ReprProofs.Repr chunk_data val_len] in Hr. destruct Hr as (c & -> & Hr).
+  unfold bits_set. cbn [bits_len]. rewrite (mixin_len_node H src c (lenN bs)) by lia. cbn [bind].
+  assert (((i <? 0)%Z || (Z.of_N (lenN bs) <=? i)%Z) = false) as -> by lia.
+  assert (tree_depth (TBitlist l) = S (contents_depth (TBitlist l))) as -> by reflexivity.
+  destruct (bit_write (fun j x => setter_i H src false (PairN c (len_node (lenN bs))) j (S (contents_depth (TBitlist l))) x)
+              (fun j => getter_i src (PairN c (len_node (lenN bs))) j (S (contents_depth (TBitlist l)))) (fun c' => PairN c' (len_node (lenN bs)))
+              _ c bs (Z.to_N i) v ltac:(lia) Hr) as (c' & Hs & Hc').
+  - intros j x Hj. apply crep_setter_i_list; [exact Hr|unfold lenN in *; rewrite map_length; exact Hj].
+  - intros j Hj. apply (getter_i_crep_list H src _ _ _ _ _ _ Hr). unfold lenN in *. rewrite map_length. exact Hj.
+  - rewrite Hs. eexists. split; [reflexivity|]. cbn [ReprProofs.Repr chunk_data val_len]. exists c'.
+    split; [unfold lenN; now rewrite upd_len|]. replace (Z.to_nat i) with (N.to_nat (Z.to_N i)) by lia. exact Hc'.
+Qed.
+Local Open Scope nat_scope.
+Lemma bits_byte_snoc_false (t : list bool) : length t < 8 -> bits_byte (t ++ [false]) = bits_byte t.
+Proof.
+  intros Hl.
+  destruct t as [|[|] t]; [reflexivity| |];
+  (destruct t as [|[|] t]; [reflexivity| |]);
+  (destruct t as [|[|] t]; [reflexivity| |]);
+  (destruct t as [|[|] t]; [reflexivity| |]);
+  (destruct t as [|[|] t]; [reflexivity| |]);
+  (destruct t as [|[|] t]; [reflexivity| |]);
+  (destruct t as [|[|] t]; [reflexivity| |]);
+  (destruct t as [|[|] t]; [reflexivity| |]);
+  exfalso; cbn [length] in Hl; lia.
+Qed.
+
+(* appending a cleared bit: the bytes gain a zero byte at a byte boundary, nothing else changes *)
+Lemma bits_append_false_bytes (bs : list bool) :
+  bits_to_bytes (bs ++ [false]) = bits_to_bytes bs ++ (if length bs mod 8 =? 0 then [x00] else []).
+Proof.
+  set (q := length bs / 8). set (a := firstn (q * 8) bs). set (t := skipn (q * 8) bs).
+  pose proof (Nat.div_mod (length bs) 8 ltac:(lia)) as Hdm. pose proof (Nat.mod_upper_bound (length bs) 8 ltac:(lia)) as Hm.
+  assert (length a = q * 8) as Ha by (unfold a; rewrite firstn_length; unfold q; lia).
+  assert (length t = length bs mod 8) as Ht by (unfold t; rewrite skipn_length; unfold q; lia).
+  assert (bs = a ++ t) as Ebs by (unfold a, t; now rewrite firstn_skipn).
+  set (r := length bs mod 8) in *. clearbody a t r q. clear Hdm. subst bs.
+  rewrite !bits_group. rewrite <- app_assoc.
+  rewrite !(group_app_full 8 ltac:(lia) q a _ Ha), !map_app, <- app_assoc. f_equal.
+  rewrite (group_small 8 (t ++ [false])) by (rewrite app_length; cbn [length]; lia).
+  destruct (r =? 0) eqn:Er.
+  - apply Nat.eqb_eq in Er. assert (t = []) as -> by (destruct t; [reflexivity|cbn in Ht; lia]). reflexivity.
+  - apply Nat.eqb_neq in Er. rewrite (group_small 8 t) by lia. cbn [map]. rewrite bits_byte_snoc_false by lia. now rewrite app_nil_r.
+Qed.
+
+Lemma chunks_snoc_zero (B : bytes) :
+  chunks (B ++ [x00]) = chunks B ++ (if length B mod 32 =? 0 then [zero32] else []).
+Proof.
+  destruct (split32 (length B) B (le_n _)) as (cs & lastq & EB & Hcs & Hlq).
+  pose proof (f_equal (@length byte) EB) as Hlen. rewrite app_length, (concat_uniform_length 32 cs Hcs) in Hlen.
+  assert (length B mod 32 = length lastq) as Emod.
+  { symmetry. apply (Nat.mod_unique (length B) 32 (length cs)); lia. }
+  rewrite Emod, EB, <- app_assoc.
+  rewrite (chunks_app_full H cs (lastq ++ [x00]) Hcs) by (rewrite app_length; cbn [length]; lia).
+  rewrite (chunks_app_full H cs lastq Hcs) by lia.
+  destruct lastq as [|b lq] eqn:Elq.
+  - cbn [app length Nat.eqb]. rewrite app_nil_r. reflexivity.
+  - rewrite <- Elq in *. assert ((length lastq =? 0) = false) as -> by (apply Nat.eqb_neq; rewrite Elq; cbn; lia).
+    rewrite app_nil_r. destruct (lastq ++ [x00]) eqn:E; [destruct lastq; discriminate|]. rewrite <- E.
+    rewrite (pad32_snoc_zero H lastq) by lia. rewrite Elq. reflexivity.
+Qed.
+
+Lemma bits_append_false_chunks (bs : list bool) :
+  chunks (bits_to_bytes (bs ++ [false])) = chunks (bits_to_bytes bs) ++ (if length bs mod 256 =? 0 then [zero32] else []).
+Proof.
+  rewrite bits_append_false_bytes. pose proof (bits_to_bytes_lenN bs) as HB. unfold lenN in HB.
+  pose proof (Nat.div_mod (length bs) 8 ltac:(lia)) as Hd8. pose proof (Nat.mod_upper_bound (length bs) 8 ltac:(lia)) as Hm8.
+  destruct (length bs mod 8 =? 0) eqn:E8.
+  - apply Nat.eqb_eq in E8. rewrite chunks_snoc_zero.
+    assert (length (bits_to_bytes bs) = length bs / 8) as HlB by lia.
+    assert ((length (bits_to_bytes bs) mod 32 =? 0) = (length bs mod 256 =? 0)) as ->; [|reflexivity].
+    rewrite HlB. pose proof (Nat.div_mod (length bs / 8) 32 ltac:(lia)). pose proof (Nat.mod_upper_bound (length bs / 8) 32 ltac:(lia)).
+    pose proof (Nat.div_mod (length bs) 256 ltac:(lia)). pose proof (Nat.mod_upper_bound (length bs) 256 ltac:(lia)).
+    destruct (Nat.eqb_spec ((length bs / 8) mod 32) 0), (Nat.eqb_spec (length bs mod 256) 0); try reflexivity; exfalso; lia.
+  - apply Nat.eqb_neq in E8. rewrite app_nil_r.
+    assert ((length bs mod 256 =? 0) = false) as ->; [|now rewrite app_nil_r].
+    apply Nat.eqb_neq. pose proof (Nat.div_mod (length bs) 256 ltac:(lia)). pose proof (Nat.mod_upper_bound (length bs) 256 ltac:(lia)). lia.
+Qed.
+Local Open Scope N_scope.
+Lemma upd_snoc {A} (l : list A) x y : upd (length l) y (l ++ [x]) = l ++ [y].
+Proof. rewrite upd_app2 by lia. rewrite Nat.sub_diag. reflexivity. Qed.
+
+Lemma bit_chunks_count (bs : list bool) : length (chunks (bits_to_bytes bs)) = ((length bs + 255) / 256)%nat.
+Proof. rewrite chunks_length. pose proof (bits_to_bytes_lenN bs) as HB. unfold lenN in HB. lia. Qed.
+
+Theorem bitlist_append_repr l bs n v : wf_ty (TBitlist l) = true -> wf (TBitlist l) (VBits bs) = true ->
+  Repr (TBitlist l) (VBits bs) n -> lenN bs < l ->
+  exists n', bitlist_append H src (TBitlist l) n v = Ok n' /\ Repr (TBitlist l) (VBits (bs ++ [v])) n'.
+Proof.
+  intros Hty Hwf Hr Hlt. cbn [wf] in Hwf. apply N.leb_le in Hwf. cbn [wf_ty] in Hty. apply N.ltb_lt in Hty. unfold LIMIT_BOUND in Hty.
+  cbn [ReprProofs.Repr chunk_data val_len] in Hr. destruct Hr as (c & -> & Hr).
+  unfold bitlist_append. rewrite (mixin_len_node H src c (lenN bs)) by lia. cbn [bind].
+  assert ((l <=? lenN bs) = false) as -> by (apply N.leb_gt; exact Hlt).
+  assert (tree_depth (TBitlist l) = S (contents_depth (TBitlist l))) as -> by reflexivity.
+  set (cd := contents_depth (TBitlist l)) in *. set (B := bits_to_bytes bs) in *.
+  assert (lenN (bs ++ [v]) = lenN bs + 1) as Elen by (unfold lenN; rewrite app_length; cbn [length]; lia).
+  assert (bs ++ [v] = upd (length bs) v (bs ++ [false])) as Eupd by (now rewrite upd_snoc).
+  pose proof (bit_set_chunks (bs ++ [false]) (length bs) v ltac:(rewrite app_length; cbn [length]; lia)) as Hch.
+  rewrite <- Eupd, bits_append_false_chunks in Hch. fold B in Hch.
+  assert (N.of_nat (length bs mod 256) = lenN bs mod 256) as Emod by (unfold lenN; change 256 with (N.of_nat 256); now rewrite Nat2N.inj_mod).
+  assert (N.of_nat (length bs / 256) = lenN bs / 256) as Ediv by (unfold lenN; change 256 with (N.of_nat 256); now rewrite Nat2N.inj_div).
+  rewrite Emod in Hch.
+  (* capacity: the new chunk list fits *)
+  assert (length (chunks (bits_to_bytes (bs ++ [v]))) <= 2 ^ cd)%nat as Hcap.
+  { rewrite bit_chunks_count, app_length. cbn [length]. unfold cd. cbn [contents_depth].
+    pose proof (get_depth_fits ((l + 255) / 256)). unfold lenN in *.
+    assert ((length bs + 1 + 255) / 256 <= N.to_nat ((l + 255) / 256))%nat; [|lia].
+    rewrite N2Nat.inj_div. change (N.to_nat 256) with 256%nat. apply Nat.div_le_mono; lia. }
+  destruct (lenN bs mod 256 =? 0) eqn:Er.
+  - (* a new chunk *)
+    apply N.eqb_eq in Er. assert ((length bs mod 256 =? 0)%nat = true) as Er' by (apply Nat.eqb_eq; unfold lenN in *; lia).
+    rewrite Er' in Hch. rewrite Er in Hch.
+    assert (length (chunks B) = length bs / 256)%nat as Hcnt.
+    { unfold B. rewrite bit_chunks_count. apply Nat.eqb_eq in Er'. pose proof (Nat.div_mod (length bs) 256 ltac:(lia)) as Hdm.
+      rewrite Er' in Hdm. symmetry. apply (Nat.div_unique (length bs + 255) 256 _ 255); lia. }
+    rewrite <- Hcnt in Hch. rewrite app_nth2 in Hch by lia. rewrite Nat.sub_diag in Hch. cbn [nth] in Hch. rewrite upd_snoc in Hch.
+    assert (lenN bs / 256 = lenN (map RootN (chunks B))) as Eq by (rewrite <- Ediv; unfold lenN; rewrite map_length; lia).
+    pose proof (pow_nat_N cd) as Hp.
+    assert (lenN (map RootN (chunks B)) < 2 ^ N.of_nat cd) as Hq1.
+    { rewrite Hch, app_length in Hcap. cbn [length] in Hcap. unfold lenN. rewrite map_length. lia. }
+    assert (lenN (map RootN (chunks B)) < 2 ^ N.of_nat (S cd)) as Hq2 by (rewrite Nat2N.inj_succ, N.pow_succ_r'; lia).
+    unfold setter_i. rewrite Eq, (to_gindex_ok _ (S cd) Hq2). cbn [bind]. unfold setter_g. rewrite (path_of_to_gindex (S cd) _ Hq2).
+    cbn [be_bits]. rewrite (testbit_top _ cd Hq2). assert ((2 ^ N.of_nat cd <=? lenN (map RootN (chunks B))) = false) as -> by (apply N.leb_gt; exact Hq1).
+    rewrite setter_unfold. cbn [Tree.setter_below children].
+    destruct (CRep_append H src _ _ _ Hr (RootN (chunk_with_bit zero32 0 v))) as (c' & Hs' & Hc'); [unfold lenN in Hq1; lia|].
+    rewrite Hs'. cbn [rebuild bind]. unfold rebind_right. cbn [children].
+    eexists; split; [reflexivity|]. cbn [ReprProofs.Repr chunk_data val_len]. exists c'. split; [now rewrite Elen|]. rewrite Hch, map_app. exact Hc'.
+  - (* into the partial last chunk *)
+    apply N.eqb_neq in Er. assert ((length bs mod 256 =? 0)%nat = false) as Er' by (apply Nat.eqb_neq; unfold lenN in *; lia).
+    rewrite Er', app_nil_r in Hch.
+    assert (chunks (bits_to_bytes (bs ++ [false])) = chunks B) as EB1 by (rewrite bits_append_false_chunks, Er'; now rewrite app_nil_r).
+    destruct (bit_write (fun j x => setter_i H src false (PairN c (len_node (lenN bs))) j (S cd) x)
+                (fun j => getter_i src (PairN c (len_node (lenN bs))) j (S cd)) (fun c' => PairN c' (len_node (lenN bs)))
+                cd c (bs ++ [false]) (lenN bs) v) as (c' & Hs & Hc').
+    + unfold lenN. rewrite app_length. cbn [length]. lia.
+    + rewrite EB1. exact Hr.
+    + rewrite EB1. intros j x Hj. apply crep_setter_i_list; [exact Hr|unfold lenN in *; rewrite map_length; exact Hj].
+    + rewrite EB1. intros j Hj. apply (getter_i_crep_list H src _ _ _ _ _ _ Hr). unfold lenN in *. rewrite map_length. exact Hj.
+    + rewrite Hs. cbn [bind]. unfold rebind_right. cbn [children]. eexists; split; [reflexivity|].
+      cbn [ReprProofs.Repr chunk_data val_len]. exists c'. split; [now rewrite Elen|].
+      unfold lenN in Hc'. rewrite Nat2N.id in Hc'. rewrite <- Eupd in Hc'. exact Hc'.
+Qed.
+Lemma firstn_upd_same {A} (x : A) : forall l j, firstn j (upd j x l) = firstn j l.
+Proof. induction l as [|h l IH]; intros [|j]; cbn; auto. now rewrite IH. Qed.
+
+Theorem bitlist_pop_repr l bs n : wf_ty (TBitlist l) = true -> wf (TBitlist l) (VBits bs) = true ->
+  Repr (TBitlist l) (VBits bs) n -> bs <> [] ->
+  exists n', bitlist_pop H src (TBitlist l) n = Ok n' /\ Repr (TBitlist l) (VBits (removelast bs)) n'.
+Proof.
+  intros Hty Hwf Hr Hne. cbn [wf] in Hwf. apply N.leb_le in Hwf. cbn [wf_ty] in Hty. apply N.ltb_lt in Hty. unfold LIMIT_BOUND in Hty.
+  cbn [ReprProofs.Repr chunk_data val_len] in Hr. destruct Hr as (c & -> & Hr).
+  destruct (nil_or_last bs) as [->|(bs' & b & ->)]; [congruence|]. clear Hne. rewrite removelast_last.
+  assert (lenN (bs' ++ [b]) = lenN bs' + 1) as Elen by (unfold lenN; rewrite app_length; cbn [length]; lia).
+  unfold bitlist_pop. rewrite (mixin_len_node H src c _) by lia. cbn [bind]. rewrite Elen.
+  assert ((lenN bs' + 1 =? 0) = false) as -> by (apply N.eqb_neq; lia).
+  replace (lenN bs' + 1 - 1) with (lenN bs') by lia.
+  assert (tree_depth (TBitlist l) = S (contents_depth (TBitlist l))) as -> by reflexivity.
+  set (cd := contents_depth (TBitlist l)) in *. set (B := bits_to_bytes (bs' ++ [b])) in *. set (B' := bits_to_bytes bs').
+  (* clearing the last bit = the bytes of bs' ++ [false] *)
+  assert (upd (length bs') false (bs' ++ [b]) = bs' ++ [false]) as Eupd by apply upd_snoc.
+  pose proof (bit_set_chunks (bs' ++ [b]) (length bs') false ltac:(rewrite app_length; cbn [length]; lia)) as Hch.
+  rewrite Eupd, bits_append_false_chunks in Hch. fold B B' in Hch.
+  assert (N.of_nat (length bs' mod 256) = lenN bs' mod 256) as Emod by (unfold lenN; change 256 with (N.of_nat 256); now rewrite Nat2N.inj_mod).
+  assert (N.of_nat (length bs' / 256) = lenN bs' / 256) as Ediv by (unfold lenN; change 256 with (N.of_nat 256); now rewrite Nat2N.inj_div).
+  rewrite Emod in Hch.
+  set (q := lenN bs' / 256) in *.
+  assert (length (chunks B) = (length bs' + 1 + 255) / 256)%nat as HcntB by (unfold B; rewrite bit_chunks_count, app_length; reflexivity).
+  assert (q < lenN (map RootN (chunks B))) as Hq.
+  { unfold lenN. rewrite map_length, HcntB, <- Ediv.
+    assert (length bs' / 256 < (length bs' + 1 + 255) / 256)%nat; [|lia]. apply Nat.div_le_lower_bound; [lia|].
+    pose proof (Nat.div_mod (length bs') 256 ltac:(lia)). pose proof (Nat.mod_upper_bound (length bs') 256 ltac:(lia)). lia. }
+  pose proof (CRep_len H _ _ _ Hr) as Hcl. pose proof (pow_nat_N cd) as Hp.
+  assert (q < 2 ^ N.of_nat cd) as Hq1 by (unfold lenN in *; lia).
+  assert (q < 2 ^ N.of_nat (S cd)) as Hq2 by (rewrite Nat2N.inj_succ, N.pow_succ_r'; lia).
+  rewrite (to_gindex_ok q (S cd) Hq2). cbn [bind].
+  destruct (lenN bs' mod 256 =? 0) eqn:Er.
+  - (* the chunk held only this bit *)
+    apply N.eqb_eq in Er. assert ((length bs' mod 256 =? 0)%nat = true) as Er' by (apply Nat.eqb_eq; unfold lenN in *; lia).
+    rewrite Er' in Hch.
+    assert (length (chunks B') = N.to_nat q) as HcntB'.
+    { unfold B'. rewrite bit_chunks_count. apply Nat.eqb_eq in Er'. pose proof (Nat.div_mod (length bs') 256 ltac:(lia)) as Hdm.
+      rewrite Er' in Hdm. rewrite <- Ediv, Nat2N.id. symmetry. apply (Nat.div_unique (length bs' + 255) 256 _ 255); lia. }
+    (* the first q chunks of B are the chunks of B' *)
+    assert (exists lastc, chunks B = chunks B' ++ [lastc]) as (lastc & EchB).
+    { replace (length bs' / 256)%nat with (N.to_nat q) in Hch by (rewrite <- Ediv; lia).
+      pose proof (f_equal (firstn (N.to_nat q)) Hch) as Hf.
+      rewrite <- HcntB' in Hf. rewrite firstn_app, firstn_all, Nat.sub_diag in Hf. cbn [firstn] in Hf. rewrite app_nil_r in Hf.
+      rewrite firstn_upd_same in Hf.
+      assert (length (chunks B) = S (length bs' / 256))%nat as HlB.
+      { rewrite HcntB. apply Nat.eqb_eq in Er'. pose proof (Nat.div_mod (length bs') 256 ltac:(lia)) as Hdm. rewrite Er' in Hdm.
+        symmetry. apply (Nat.div_unique (length bs' + 1 + 255) 256 _ 0); lia. }
+      destruct (nil_or_last (chunks B)) as [E|(pre & lastc & E)]; [rewrite E in HlB; cbn in HlB; lia|].
+      exists lastc. rewrite E in Hf, HlB |- *. rewrite app_length in HlB. cbn [length] in HlB.
+      assert (length (chunks B') = length pre) as Hlp by (rewrite HcntB', <- Ediv, Nat2N.id; lia).
+      rewrite firstn_app, Hlp, firstn_all, Nat.sub_diag in Hf. cbn [firstn] in Hf. rewrite app_nil_r in Hf. now rewrite Hf. }
+    destruct (list_setter_g cd c (len_node (lenN bs' + 1)) (map RootN (chunks B)) q (zero_node H 0) Hr Hq) as (c1 & Hs1 & Hc1).
+    rewrite Hs1. cbn [bind].
+    assert (upd (N.to_nat q) (zero_node H 0) (map RootN (chunks B)) = map RootN (chunks B') ++ [zero_node H 0]) as Eupd2.
+    { rewrite EchB, map_app. cbn [map]. rewrite <- HcntB', <- (map_length RootN (chunks B')). apply upd_snoc. }
+    rewrite Eupd2 in Hc1. pose proof (CRep_drop_zero _ _ _ Hc1 _ eq_refl) as Hc1'.
+    assert (lenN (map RootN (chunks B')) = q) as Hlen' by (unfold lenN; rewrite map_length; lia).
+    assert (exists c2, (if N.even (2 ^ N.of_nat (S cd) + q) && true then summarize_up H src (PairN c1 (len_node (lenN bs' + 1))) (2 ^ N.of_nat (S cd) + q)
+                        else Ok (PairN c1 (len_node (lenN bs' + 1)))) = Ok (PairN c2 (len_node (lenN bs' + 1))) /\ CRep cd c2 (map RootN (chunks B'))) as (c2 & Hsum & Hc2).
+    { rewrite andb_true_r. destruct (N.even (2 ^ N.of_nat (S cd) + q)); [|eauto].
+      unfold summarize_up. destruct (climb_exists (N.size_nat (2 ^ N.of_nat (S cd) + q)) cd q Hq1) as (k & Hk & Hmod & Hcl'). rewrite Hcl'.
+      apply (summarize_list_backing cd c1 _ (map RootN (chunks B')) k q Hc1' Hlen' Hq1 Hk Hmod).
+      exists (zero_node H 0).
+      assert (q < lenN (map RootN (chunks B') ++ [zero_node H 0])) as Hql by (rewrite lenN_app, Hlen'; unfold lenN; cbn [length]; clear; lia).
+      rewrite (CRep_get H src _ _ _ Hc1 q (RootN zero32) Hql).
+      assert (length (map RootN (chunks B')) = N.to_nat q) as Hlq' by (clear - Hlen'; unfold lenN in Hlen'; lia).
+      rewrite app_nth2 by (rewrite Hlq'; apply le_n). rewrite Hlq', Nat.sub_diag. reflexivity. }
+    rewrite Hsum. cbn [bind]. unfold rebind_right. cbn [children]. eexists; split; [reflexivity|].
+    cbn [ReprProofs.Repr chunk_data val_len]. exists c2. split; [reflexivity|exact Hc2].
+  - (* other bits stay in the chunk *)
+    apply N.eqb_neq in Er. rewrite andb_false_r. assert ((length bs' mod 256 =? 0)%nat = false) as Er' by (apply Nat.eqb_neq; unfold lenN in *; lia).
+    rewrite Er', app_nil_r in Hch.
+    destruct (list_setter_g cd c (len_node (lenN bs' + 1)) (map RootN (chunks B)) q (RootN zero32) Hr Hq) as (pr & Hpr & _). rewrite Hpr. cbn [bind].
+    rewrite (list_getter_g cd c _ (map RootN (chunks B)) q (RootN zero32) Hr Hq). cbn [bind].
+    rewrite (nth_map_RootN (chunks B)) by (unfold lenN in Hq; rewrite map_length in Hq; lia). cbn [Tree.root].
+    destruct (list_setter_g cd c (len_node (lenN bs' + 1)) (map RootN (chunks B)) q
+                (RootN (chunk_with_bit (nth (N.to_nat q) (chunks B) zero32) (lenN bs' mod 256) false)) Hr Hq) as (c1 & Hs1 & Hc1).
+    rewrite Hs1. cbn [bind]. unfold rebind_right. cbn [children]. eexists; split; [reflexivity|].
+    cbn [ReprProofs.Repr chunk_data val_len]. exists c1. split; [reflexivity|]. fold B'. rewrite Hch, map_upd.
+    replace (length bs' / 256)%nat with (N.to_nat q) by (rewrite <- Ediv; lia). exact Hc1.
+Qed.
+
 (* ---- what Repr buys: indistinguishable from a freshly constructed value ---- *)
 Theorem repr_fresh t v n : wf_ty t = true -> wf t v = true -> Repr t v n ->
   exists n0, mk t v = Ok n0 /\ root n = root n0 /\ root n = htr H t v /\
